@@ -171,16 +171,7 @@ ValsOK(res, m) == \A i \in 1..Len(res) : res[i].k \in DOMAIN m /\ res[i].v = m[r
 \* a scan's error and an empty result are the same observation
 Got(a) == IF a.err THEN <<>> ELSE Keys(a.res)
 
-\* Known finding F-C02-1 (sparse index mode): range, prefix and full scans
-\* consult the sealed segments through an ad-hoc overlap test and page per
-\* segment: they miss live keys and, when the segment holding a key's newest
-\* record (a tombstone or an overwrite) is skipped, return its older value.
-\* Under this finding the result of a sparse-mode scan is not constrained
-\* (a panic is still rejected); Get is judged exactly.
-F_SparseScan == "F-C02-1"
-SparseWeakOK(a, c) == "sparse" \in DOMAIN a /\ a.op \in {"getall", "range", "pscan", "psscan"}
-
-KvReadOKIdeal(a, c, D) ==
+KvReadOK(a, c, D) ==
   LET m == BucketOf(c, a.b) IN
   \E Lv \in KV!LiveSets(m, a.t0, a.t1) :
     CASE a.op = "get" ->
@@ -248,8 +239,6 @@ ZReadOK(a, c, D) ==
          ELSE /\ Len(a.res) = n
               /\ {a.res[i].k : i \in 1..Len(a.res)} = DOMAIN z
               /\ \A i \in 1..Len(a.res) : NodeIs(a.res[i], z, a.res[i].k)
-
-KvReadOK(a, c, D) == KvReadOKIdeal(a, c, D) \/ (F_SparseScan \in D /\ SparseWeakOK(a, c))
 
 KvReads   == {"get", "getall", "range", "pscan", "psscan"}
 ListReads == {"lpeek", "rpeek", "lsize", "lrange"}
@@ -337,7 +326,6 @@ F_ReadsCommitted == "F-C13-1"
 
 \* the findings a deviant evaluation of call a may be blamed on
 Blame(a) == IF a.op = "zrem" THEN {F_ZRemEmpty}
-            ELSE IF a.op \in {"getall", "range", "pscan", "psscan"} /\ "sparse" \in DOMAIN a THEN {F_SparseScan}
             ELSE {}
 
 CallOK(a, ok(_, _, _)) ==
